@@ -285,7 +285,11 @@ func GenSegDesc(r *gen.Rand, allowForeign bool) SegDesc {
 	d.Web, d.NoBlackout, d.Archive = r.Bool(), r.Bool(), r.Bool()
 	d.DevRestr = byte(r.Intn(4))
 	if !d.ProgSeg {
-		for i := r.Intn(4); i > 0; i-- {
+		n := r.Intn(4)
+		if r.Chance(8) {
+			n = 8 + r.Intn(20) // long component lists (6 bytes each)
+		}
+		for i := n; i > 0; i-- {
 			d.Comps = append(d.Comps, SegComp{r.Byte(), r.U33()})
 		}
 	}
@@ -320,6 +324,9 @@ func GenSegDesc(r *gen.Rand, allowForeign bool) SegDesc {
 		if want := r.PickInt([]int{253, 254, 255, 255}); want-base > 0 && want-base <= 255 {
 			d.UPID = r.Bytes(want - base)
 		}
+	}
+	for len(d.Enc())-2 > 255 && len(d.Comps) > 0 {
+		d.Comps = d.Comps[:len(d.Comps)-1]
 	}
 	return d
 }
